@@ -158,6 +158,33 @@ def explore_pair(args):
           'bad': bad, 'truncated': n >= limit, 'fine': fine}
 
 
+def explore_triple(args):
+  """Worker: all interleavings of THREE requests after a prefix, compared with the six serial orders."""
+  from vcheck import sched
+  backend, pname, names, limit = args
+  prefix = PREFIXES[pname]
+  reqs = [REQS[n][1] for n in names]
+  ser = {}
+  for order in itertools.permutations(range(3)):
+    r = sched.serial(backend, prefix, reqs, order)
+    rr = svcreal.make_runner(backend)
+    for p in prefix:
+      rr.step(p)
+    ser[order] = canon(r, rr.snapshot())
+  n, bad, outcomes = 0, [], set()
+  for res in sched.explore(backend, prefix, reqs, limit=limit):
+    n += 1
+    co = canon(res, res['before'])
+    outcomes.add(co)
+    if co not in ser.values() and len(bad) < 2:
+      bad.append({'what': 'deadlock' if co == 'DEADLOCK' else 'outcome', 'choices': res['choices'],
+                  'events': [[t, list(e)] for t, e in res['events']],
+                  'outcome': co if co == 'DEADLOCK' else json.loads(co),
+                  'serial': {''.join(map(str, o)): json.loads(v) for o, v in ser.items()}})
+  return {'backend': backend, 'prefix': pname, 'names': list(names), 'schedules': n, 'distinct_outcomes': len(outcomes),
+          'distinct_serial_outcomes': len(set(ser.values())), 'bad': bad, 'truncated': n >= limit}
+
+
 def pairs_for(tier, rng):
   names = list(REQS)
   allpairs = [(a, b) for i, a in enumerate(names) for b in names[i:]]
@@ -213,6 +240,30 @@ def run(c):
   with concurrent.futures.ProcessPoolExecutor(max_workers=min(14, os.cpu_count() or 4), mp_context=ctx) as ex:
     for r in ex.map(explore_pair, jobs, chunksize=2):
       results.append(r)
+  # THREE concurrent RPCs (the theorems and the pair exploration cover two): every interleaving of a few triples
+  # against the six serial orders
+  triples = [('complete1', 'mdTrial1', 'setInactive'), ('measure1', 'stop1', 'delete1'), ('createTrial', 'complete1', 'mdBoth'),
+             ('complete1', 'complete1inf', 'measure1'), ('setInactive', 'setActive', 'createTrial'), ('suggestPool', 'complete2', 'createTrial')]
+  if c.tier == 'thorough':
+    triples += [('suggestNew', 'createTrial', 'complete1'), ('suggestNew', 'suggestOwn', 'mdStudy'), ('createTrial', 'createTrial2', 'suggestPool'),
+                ('deleteStudy', 'suggestNew', 'createTrial'), ('delete1', 'complete1', 'suggestOwn')]
+  tlimit = 1500 if c.tier == 'quick' else 20000
+  with concurrent.futures.ProcessPoolExecutor(max_workers=min(14, os.cpu_count() or 4), mp_context=ctx) as ex:
+    tres = list(ex.map(explore_triple, [('ram', 'A', t, tlimit) for t in triples]))
+  for r in tres:
+    kinds = tuple(sorted(REQS[x][0] for x in r['names']))
+    c.count(r['schedules'], ('triple', r['backend'], r['prefix']) + tuple(r['names']) if r['schedules'] > 6 else None, kind='triple:%s|%s|%s' % kinds)
+    c.traces += r['schedules']
+    for b in r['bad']:
+      c.prop_fail('not-serialisable-3:%s|%s|%s:%s' % (kinds + (b['what'],)),
+                  'an interleaving of %s, %s and %s (prefix %s, backend %s) is equivalent to none of the six serial orders' % (
+                      tuple(r['names']) + (r['prefix'], r['backend'])),
+                  {'backend': r['backend'], 'prefix': PREFIXES[r['prefix']], 'requests': [REQS[x][1] for x in r['names']],
+                   'schedule': b['choices'], 'events': b['events'], 'outcome': b['outcome'], 'serial_orders': b['serial']})
+    if r['truncated']:
+      c.notes.append('schedule enumeration truncated at %d for the triple %s' % (tlimit, r['names']))
+  c.coverage_extra['triples'] = [{'requests': r['names'], 'schedules': r['schedules'], 'distinct_outcomes': r['distinct_outcomes'],
+                                  'distinct_serial_outcomes': r['distinct_serial_outcomes'], 'exhaustive': not r['truncated']} for r in tres]
   total = 0
   for r in results:
     total += r['schedules']
@@ -239,6 +290,6 @@ def run(c):
   return c.finish(
       level='proof',
       rule='all interleavings (datastore calls + service-lock acquisitions; explored up to commutation of independent events by sleep sets: two datastore reads commute) of 2 concurrent RPCs for %d (prefix, request-pair) combinations drawn from %d request templates of the 11 RPC kinds; outcome compared with both serial orders up to renumbering of new trials; non-trivial = pair with more than 2 schedules' % (len(results), len(REQS)),
-      assumptions=['two concurrent RPCs (three-thread interleavings are not explored)',
+      assumptions=['two concurrent RPCs for every pair of templates; three concurrent RPCs for the listed triples only (coverage.triples)',
                    'a datastore method call is atomic (it holds the datastore lock for its whole body)',
                    'early-stopping answers are exempt from the comparison'])
